@@ -1,5 +1,7 @@
 use crate::delta::{DiffType, InMergeConflict, MergeParents, State, StateMachine};
-use crate::handlers::diff_header::{get_repeated_file_path_from_diff_line, FileEvent};
+use crate::handlers::diff_header::{
+    get_repeated_file_path_from_diff_line, get_two_file_paths_from_diff_line, FileEvent,
+};
 
 impl StateMachine<'_> {
     #[inline]
@@ -39,6 +41,17 @@ impl StateMachine<'_> {
         crate::utils::path::relativize_path_maybe(&mut name, self.config);
         self.minus_file.clone_from(&name);
         self.plus_file.clone_from(&name);
+        if name.is_empty() {
+            // (two different files: `git diff --no-index x y`)
+            if let Some((mut minus_file, mut plus_file)) =
+                get_two_file_paths_from_diff_line(&self.line)
+            {
+                crate::utils::path::relativize_path_maybe(&mut minus_file, self.config);
+                crate::utils::path::relativize_path_maybe(&mut plus_file, self.config);
+                self.minus_file = minus_file;
+                self.plus_file = plus_file;
+            }
+        }
         self.minus_file_event = FileEvent::Change;
         self.plus_file_event = FileEvent::Change;
         self.current_file_pair = Some((self.minus_file.clone(), self.plus_file.clone()));
